@@ -84,3 +84,30 @@ Theorem C13_cursor_bracket_atomic_partial : forall sched,
   let s := run cur_st (cur_step true) sched cur_init in
   cur_final s = true -> cu_fb s = false.
 Proof. exact cursor_bracket_serial. Qed.
+
+(* --- a request wakes the output thread whenever it has work (needed for "every staying client ends
+   up with the final framebuffer").  [rq_good b kd s] = from state s the round-robin continuation
+   [rq_rr] ends with the update sent.  Application's last operation = mark (kind 0) or copy (kind 1),
+   any schedule of application, input and output thread: *)
+Theorem C13_request_wakes_output : forall kd sched, kd < 2 ->
+  rq_good false kd (run rq_st (rq_step false kd) sched rq_init) = true.
+Proof. exact request_wakes_output. Qed.
+
+(* cursor moved / replaced before the request arrives (these operations do not signal by themselves) *)
+Theorem C13_request_wakes_output_cursor : forall sched,
+  rq_good false 2 (run rq_st (rq_step false 2) sched rq_cur_init) = true.
+Proof. exact request_wakes_output_cursor. Qed.
+
+(* the handler's signal must be unconditional: "signal only if modifiedRegion is non-empty" loses the
+   update after a copy *)
+Theorem C13_request_signal_must_be_unconditional :
+  let s := run rq_st (rq_step true 1) rq_witness rq_init in
+  rq_req s = true /\ rq_copy s = true /\ rq_sent s = false /\
+  forall t, enabled rq_st (rq_step true 1) t s = false.
+Proof. exact conditional_signal_loses_update. Qed.
+
+(* REFUTED for the faithful protocol: a cursor change while a request is outstanding wakes nobody *)
+Theorem C13_cursor_change_wakes_output_refuted :
+  let s := run rq_st (rq_step false 2) rq_cur_witness rq_init in
+  rq_req s = true /\ rq_cur s = true /\ rq_sent s = false /\ forall t, enabled rq_st (rq_step false 2) t s = false.
+Proof. exact cursor_change_does_not_wake. Qed.
